@@ -49,7 +49,7 @@ fn oracle(s: &ProgScene<X>, t: &Trace) -> Vec<Violation> {
     let script = s.extra.owner_script;
     let term = an.task_end(0);
     let stopped_exit = an.exits.iter().find(|e| e.a == 0 && e.cb == Cb::Stopped).map(|e| e.idx);
-    let graceful = matches!(term, Some((_, false))) && stopped_exit.is_some();
+    let graceful = matches!(term, Some((_, false))) && stopped_exit.is_some() && !an.role_failed(0, &s.roles[0].started);
     let op_at = |c: u8, i: u16| s.clients.get(c as usize).and_then(|cs| cs.ops.get(i as usize));
     // expected final state
     let mut digest = DIGEST0;
